@@ -22,7 +22,7 @@ from .. import core, tlc
 
 PROP = 'C15'
 SPEC_DIR = os.path.join(core.SPECS, 'cell')
-FORMATS = ['rule', 'uniq', 'uid', 'event', 'evdict', 'zk', 'ldap', 'ldapupd']
+FORMATS = ['rule', 'uniq', 'uid', 'event', 'evdict', 'dn', 'zk', 'ldap', 'ldapupd']
 RULE = ('an item counts when the real encoder produced an encoding AND the real decoder '
         'returned a value for it, so that the round-trip comparison was made on real outputs; '
         'distinct = distinct (format, abstract value) pairs')
@@ -43,6 +43,10 @@ ASSUMPTIONS = [
     'event field is a string / integer / boolean',
     'ZooKeeper payloads are dictionaries and lists (nesting <= 2 enumerated, <= 3 random) of '
     'str/int/float/bool/None; top-level strings are outside the statement',
+    'identifiers: CellAllocation (1-3 tenant levels, names with - . digits, palindromic and '
+    'non-palindromic orders), Partition and Application ids go id -> real create() (DN + entity '
+    'attribute on the real Admin.dn, the add is captured) -> from_entry(entry, dn) -> id; names '
+    'contain no "," "=" "/" ":" (the DN and id syntax have no escaping)',
     'LDAP lists: every list-typed attribute (args, tickets, keytabs, features, passthrough, '
     'traits, vring cells, vring rule endpoints, partition systems, reservation traits) is also '
     'exercised with repeated elements and in unsorted order (no schema has uniqueItems; the codec '
@@ -162,6 +166,18 @@ def rnd_zk(rng):
     return t
 
 
+def rnd_dn(rng):
+    def name():
+        return _word(rng, 'ab09', 1, 1) + _word(rng, 'ab09.-', 0, 4)
+    x = rng.random()
+    if x < 0.75:
+        return dict(kind='cellalloc', a=[name() for _ in range(rng.choice([1, 2, 2, 3, 3]))],
+                    b=name(), c=name())
+    if x < 0.9:
+        return dict(kind='partition', a=[], b=rng.choice(['_default', name()]), c=name())
+    return dict(kind='app', a=[], b='%s.%s' % (name(), name()), c='')
+
+
 def _shake(rng, t):
     """Re-draw every non-empty list of atoms in a tagged tree WITH replacement
     from its own elements and a sibling of each (repeated elements, arbitrary
@@ -238,7 +254,8 @@ def rnd_ldapupd(rng, specs, extra):
 
 
 def random_values(rng, n, specs, extra):
-    return dict(ldapupd=[rnd_ldapupd(rng, specs, extra) for _ in range(n)], **_random_values(rng, n, specs))
+    return dict(ldapupd=[rnd_ldapupd(rng, specs, extra) for _ in range(n)],
+                dn=[rnd_dn(rng) for _ in range(n)], **_random_values(rng, n, specs))
 
 
 def _random_values(rng, n, specs):
@@ -300,7 +317,7 @@ def _sub(fmt, v):
         return v['type']
     if fmt in ('ldap', 'ldapupd'):
         return v['schema']
-    if fmt == 'rule':
+    if fmt in ('rule', 'dn'):
         return v['kind']
     return ''
 
